@@ -5,6 +5,8 @@ Import ListNotations.
 
 Definition run_case (line : bytes) : bytes :=
   let fs := fields line in
+  (* "echo": a case decided by the Go-side oracle alone (many goroutines looking names up in one engine) *)
+  if bytes_eqb (nth_field fs 0) $"echo" then nth_field fs 1 else
   match hex_decode (nth_field fs 0), dec_list (nth_field fs 3) with
   | Some text, Some probes =>
     match new_rule text 7%Z with
